@@ -17,13 +17,15 @@ RULE = ("case = (graph, query); graphs: all 15 625 graphs on 3 class names with 
         "non-trivial = graph has >= 1 edge; distinct by JSON")
 
 
-def meta_class(name, supers, declares, nonpublic="private"):
+def meta_class(name, supers, declares, nonpublic="private", salt=0):
     c = {"className": name, "qualifiedClassName": name, "object": True,
          # a base that is not public is private or protected: neither is inherited from in the sense of the property
          "superClasses": [{"name": s["n"], "access": "public" if s["pub"] else nonpublic} for s in supers]}
     if declares:
-        c["properties"] = [{"name": "p", "type": "int", "read": "p", "designable": True, "scriptable": True, "stored": True, "user": False,
-                            "constant": False, "final": False, "required": False}]
+        # the attributes of the declaration (DESIGNABLE, SCRIPTABLE, STORED, USER, CONSTANT, FINAL, REQUIRED) vary: a declared property is a declared property
+        bit = lambda k: bool((salt >> k) & 1)
+        c["properties"] = [{"name": "p", "type": "int", "read": "p", "designable": not bit(0), "scriptable": not bit(1), "stored": not bit(2), "user": bit(3),
+                            "constant": bit(4), "final": bit(5), "required": bit(6)}]
         c["methods"] = [{"name": "m", "access": "public", "returnType": "void", "arguments": []}]
         c["enums"] = [{"name": "E", "isClass": False, "isFlag": False, "values": ["V", "W" + name]}]
     return c
@@ -99,7 +101,8 @@ def run(chk):
     log("C17: %d graph configurations" % len(graphs))
     reqs = []
     for gi, g in enumerate(graphs):
-        classes = [meta_class(n, g["supers"][n], n in g["decl"], "protected" if gi % 2 else "private") for n in sorted(g["supers"])]
+        classes = [meta_class(n, g["supers"][n], n in g["decl"], "protected" if gi % 2 else "private", salt=(gi * 7 + k * 13) % 128 if gi % 4 else 0)
+                   for k, n in enumerate(sorted(g["supers"]))]
         qs = []
         for d in g["derived"]:
             qs.append({"q": "derived", "c": d["c"], "b": d["b"]})
